@@ -373,7 +373,7 @@ def opBytecode (j : Json) : Except String Json := do
   let r := Ztr.Bytecode.deletions keep usec (fun n => ignore.contains n) roots
   return Json.mkObj [("deleted", Json.arr (r.map jNatss).toArray)]
 
-/-- `threads`: history = list of ["start", uid, ident, ignored] | ["finish", uid] | ["testStart"] | ["testStop"] -/
+/-- `threads`: history = list of ["start", uid, ident, ignored] | ["finish", uid] | ["rename", uid, ignored] | ["testStart"] | ["testStop"] -/
 def opThreads (j : Json) : Except String Json := do
   let h ← (← J.arr! j "history").toList.mapM (fun (x : Json) => do
     let a ← x.getArr?
@@ -381,6 +381,7 @@ def opThreads (j : Json) : Except String Json := do
     match tag with
     | "start" => return Ztr.Threads.HEv.start { uid := ← a[1]!.getNat?, ident := ← a[2]!.getNat?, ignored := ← a[3]!.getBool? }
     | "finish" => return .finish (← a[1]!.getNat?)
+    | "rename" => return .rename (← a[1]!.getNat?) (← a[2]!.getBool?)
     | "testStart" => return .testStart
     | "testStop" => return .testStop
     | _ => throw s!"bad history tag {tag}")
